@@ -359,6 +359,8 @@ class Elab:
             return self.native_method(recv, name, args, kwargs)
         if isinstance(f, tuple) and f and f[0] == 'npfn':
             try:
+                pyt = dict(bool=bool, int=int, float=float, object=object, str=str)
+                kwargs = {k: (pyt[v[1]] if isinstance(v, tuple) and len(v) == 2 and v[0] == 'builtin' and v[1] in pyt else v) for k, v in kwargs.items()}
                 return f[1](*args, **kwargs)
             except (ValueError, TypeError, IndexError) as e:
                 raise PyExc(type(e).__name__, str(e))
